@@ -64,8 +64,14 @@ impl Attributes {
     }
 
     /// Is this a long file name fragment?
+    ///
+    /// The FAT specification decides that on all six defined attribute bits
+    /// (`ATTR_LONG_NAME_MASK`), not only on the four that make up `LFN`: an
+    /// ordinary entry that also carries the directory or archive bit (0x1F,
+    /// 0x2F, 0x3F) is not a long file name fragment.
     pub fn is_lfn(self) -> bool {
-        (self.0 & Self::LFN) == Self::LFN
+        const LFN_MASK: u8 = Attributes::LFN | Attributes::DIRECTORY | Attributes::ARCHIVE;
+        (self.0 & LFN_MASK) == Self::LFN
     }
 }
 
